@@ -10,7 +10,7 @@
        one boolean of the oracle (false once the oracle is exhausted); true = this call fails;
      - ASSUMPTION: a failing Commit or Rollback leaves the transaction ended with nothing applied;
        a failing Exec/Query has no effect; a failing Next returns false (as pgx does: the error is
-       only available from Rows.Err(), which pg.go never consults).
+       only available from Rows.Err(), which pg.go consults after the translated-key query only).
    dump.go (Dump and its iterator) is not modelled. *)
 From Vise Require Import Bytes Errors Consts.
 Local Open Scope N_scope.
@@ -97,11 +97,13 @@ Definition srv_query (s : srv) (id : N) (k : bytes) : srv * outcome err (option 
        | Some p => (emit s KQuery id 0, Ok (read_kv p (s_comm s) k))
        end.
 
-(* pgx.Rows.Next (first call): is there a row; false also when the fetch fails *)
-Definition srv_next (s : srv) (id : N) (row : option bytes) : srv * bool :=
+(* pgx.Rows.Next (first call) together with what Rows.Err() reports afterwards: (is there a row,
+   did the fetch fail). Next returns false also when the fetch fails; Err()/Close() are not
+   driver calls of their own and consume no oracle entry *)
+Definition srv_next (s : srv) (id : N) (row : option bytes) : srv * (bool * bool) :=
   let '(f, s) := tick s in
-  if f then (emit s KNext id 1, false)
-  else (emit s KNext id 0, match row with Some _ => true | None => false end).
+  if f then (emit s KNext id 1, (false, true))
+  else (emit s KNext id 0, (match row with Some _ => true | None => false end, false)).
 
 (* pgx.Rows.Scan *)
 Definition srv_scan (s : srv) (id : N) : srv * outcome err unit :=
@@ -252,7 +254,7 @@ Definition pg_get_default (st : pg) (t : N) (def : bytes) : pg * pres :=
   | Err e => (pg_abort st, PErr e)
   | Panic _ => (st, PPanic)
   | Ok row =>
-    let '(s, more) := srv_next (p_srv st) t row in
+    let '(s, (more, _)) := srv_next (p_srv st) t row in   (* rs.Err() is not consulted here *)
     let st := set_srv st s in
     if negb more then (pg_abort st, PErr ENotFound)
     else
@@ -286,7 +288,7 @@ Definition pg_get (c : pcfg) (st : pg) (k : bytes) : pg * pres :=
         | Err e => (pg_abort st, PErr e)
         | Panic _ => (st, PPanic)
         | Ok row =>
-          let '(s, more) := srv_next (p_srv st) t row in
+          let '(s, (more, failed)) := srv_next (p_srv st) t row in
           let st := set_srv st s in
           if more then
             let '(s, r) := srv_scan (p_srv st) t in
@@ -298,6 +300,7 @@ Definition pg_get (c : pcfg) (st : pg) (k : bytes) : pg * pres :=
               let '(st, r) := pg_stop_single st in
               (st, res_val r (match row with Some v => v | None => [] end))
             end
+          else if failed then (pg_abort st, PErr EFault)   (* err = rs.Err(); rs.Close(); Abort *)
           else pg_get_default st t def
         end
       end
@@ -386,22 +389,9 @@ Definition opt_bytes_eqb (a b : option bytes) : bool :=
 Definition kv_agree (a b : kv) : bool :=
   forallb (fun k => opt_bytes_eqb (alookup k a) (alookup k b)) (map fst a ++ map fst b).
 
-(* k_hit / k_trf: the step lies in the guard of finding K-C13-stickymulti / K-C13-trfetch;
+(* k_hit: the step lies in the guard of finding K-C13-stickymulti;
    k_fault / k_hyg / k_rec: the three demands of the property hold at this step *)
-Record mcheck : Set := mkChk { k_hit : bool; k_trf : bool; k_fault : bool; k_hyg : bool; k_rec : bool }.
-
-(* guard of K-C13-trfetch: a Get with a translation key whose first row fetch (on the translated
-   key) failed — pg.go then falls through to the default-language key *)
-Definition first_next_faulted (evs : list pev) : bool :=
-  match find (fun e => match ev_kind e with KNext => true | _ => false end) evs with
-  | Some e => ev_flag e =? 1
-  | None => false
-  end.
-Definition tr_fetch_fault (c : pcfg) (o : pop) (evs : list pev) : bool :=
-  match o with
-  | PGet k => match to_key c k with Ok (_, Some _) => first_next_faulted evs | _ => false end
-  | _ => false
-  end.
+Record mcheck : Set := mkChk { k_hit : bool; k_fault : bool; k_hyg : bool; k_rec : bool }.
 
 Definition put_key (c : pcfg) (k : bytes) : option bytes :=
   match to_key c k with
@@ -490,7 +480,7 @@ Definition mon_step (c : pcfg) (m : mstate) (o : pop) (ob : pobs) : mstate * mch
   let nx := mon_next c m o ob in
   let mode' := fst (fst (fst nx)) in
   (mkM mode' (snd (fst (fst nx))) (snd (fst nx)) (hit_now m o),
-   mkChk (hit_now m o) (tr_fetch_fault c o (o_evs ob)) (fault_check o ob) (hyg_check mode' ob)
+   mkChk (hit_now m o) (fault_check o ob) (hyg_check mode' ob)
          (get_check c m o ob && snd nx && negb (pres_eqb (o_res ob) PPanic))).
 
 Fixpoint mon_run (c : pcfg) (m : mstate) (ops : list pop) (obs : list pobs) : list mcheck :=
@@ -501,14 +491,11 @@ Fixpoint mon_run (c : pcfg) (m : mstate) (ops : list pop) (obs : list pobs) : li
 
 (* the property at full strength *)
 Definition c13_full (ks : list mcheck) : bool := forallb (fun k => k_fault k && k_hyg k && k_rec k) ks.
-(* its three parts: the first outside the translated-fetch guard, the last two only up to the
-   first step inside the sticky-multi guard *)
-Definition c13_fault_guarded (ks : list mcheck) : bool := forallb (fun k => k_trf k || k_fault k) ks.
+(* its three parts; the last two only up to the first step inside the sticky-multi guard *)
+Definition c13_fault (ks : list mcheck) : bool := forallb k_fault ks.
 Definition c13_hyg_guarded (ks : list mcheck) : bool := forallb (fun k => k_hit k || k_hyg k) ks.
 Definition c13_rec_guarded (ks : list mcheck) : bool := forallb (fun k => k_hit k || k_rec k) ks.
 Definition sticky_hit (ks : list mcheck) : bool := existsb k_hit ks.
-
-Definition trf_hit (ks : list mcheck) : bool := existsb k_trf ks.
 
 (* init = data committed before the history starts (e.g. default-language entries) *)
 Definition pg_run (c : pcfg) (init : kv) (ops : list pop) (orc : list bool) : list pobs :=
